@@ -14,7 +14,7 @@ type refillCell struct {
 	stored, data, rerr bool
 	read               bool   // the source was read
 	ret                string // "nil", "stored", "readerr", or something else
-	storedErr          string // value stored into the sticky field: "", "readerr", other
+	storedErr          string // value the sticky field holds afterwards if it differs from the one it held before: "", "readerr", other
 	why                string
 }
 
@@ -99,11 +99,19 @@ func (c *Ctx) refillTable() []refillCell {
 						cell.ret = ret[0].String()
 					}
 				}
+				// the value of the sticky field when refill returns: the last store wins; a store of the
+				// value the field holds already (nil over nil, the stored error over itself) changes nothing
+				before := "nil"
+				if stored {
+					before = "storedErr"
+				}
 				for _, ef := range ev.effects {
 					if ef.what == "store" && strings.HasSuffix(ef.addr, "."+errF) {
 						switch {
 						case ef.args[0].s == "readErr":
 							cell.storedErr = "readerr"
+						case ef.args[0].String() == before:
+							cell.storedErr = ""
 						default:
 							cell.storedErr = ef.args[0].String()
 						}
@@ -130,6 +138,9 @@ func (c *Ctx) refillRules(ruleData, ruleSticky string) {
 		if cl.stored {
 			if cl.read || cl.ret != "stored" {
 				stickyBad = append(stickyBad, fmt.Sprintf("with a stored error refill reads again: %v and returns %s", cl.read, cl.ret))
+			}
+			if cl.storedErr != "" {
+				stickyBad = append(stickyBad, fmt.Sprintf("with a stored error refill overwrites the sticky error field with %q", cl.storedErr))
 			}
 			continue
 		}
